@@ -59,7 +59,8 @@ def probe_rigid_motion(inp: Dict[str, Any]) -> Dict[str, Any]:
     name, method = inp["name"], inp["method"]
     sp = esh.settings(method=method, eps=inp.get("eps", 1e-10), converger=inp.get("converger", [1]), analytical=inp.get("analytical"),
                       excited=inp.get("excited"), active_state=inp.get("active_state", 0), uhf=inp.get("uhf", False),
-                      **({"pair_outer_cutoff": inp["cutoff"]} if inp.get("cutoff") else {}))
+                      **({"pair_outer_cutoff": inp["cutoff"]} if inp.get("cutoff") else {}),
+                      **({"nonadiabatic": {"compute_nac": True, "states": list(range(1, int(inp["excited"]["n_states"]) + 1))}} if inp.get("nac") else {}))
     z, x0 = esh.geom(name)
     rng = np.random.default_rng(inp.get("seed", 0))
     base = x0 @ esh.random_rotation(np.random.default_rng(12345)).T  # fixed generic reference orientation
@@ -129,6 +130,17 @@ def probe_rigid_motion(inp: Dict[str, Any]) -> Dict[str, Any]:
         if d > 1e-6:
             bad.append(f"dipole not covariant: {d:.3e}")
             kinds.add("dipole")
+    if inp.get("nac") and not inp.get("same_object"):
+        # nonadiabatic coupling vectors between the excited states: vector results, defined up to the sign of each state
+        na_, nb_ = getattr(a["_mol"], "nac", None), getattr(b["_mol"], "nac", None)
+        if not na_ or not nb_:
+            bad.append("coupling vectors requested but not returned"); kinds.add("nac")
+        else:
+            for pair in sorted(na_):
+                va, vb = na_[pair][0].detach().numpy() @ R.T, nb_[pair][0].detach().numpy()
+                err = min(float(np.abs(va - vb).max()), float(np.abs(va + vb).max()))
+                if err > 1e-5 * max(1.0, float(np.abs(vb).max())):
+                    bad.append(f"coupling vector between states {pair[0] + 1} and {pair[1] + 1} not covariant: {err:.3e} (largest component {float(np.abs(vb).max()):.3f})"); kinds.add("nac")
     nf = float(np.max(np.abs(fb.sum(0))))
     if nf > tf:
         bad.append(f"net force {nf:.3e}")
@@ -175,6 +187,10 @@ def gen_cases(ctx: Ctx):
         cases.append({"name": nm, "method": meth, "stratum": "generic:", "seed": int(rng.integers(0, 10**6)), "uhf": True, "eps": 1e-9, "tol_e": 2e-7, "tol_f": 1e-5})
     # excited state
     cases.append({"name": "ch2o", "method": "AM1", "stratum": "generic:", "seed": 3, "excited": {"n_states": 2, "method": "cis"}, "active_state": 1, "tol_f": 1e-5})
+    # nonadiabatic coupling vectors (optional output of the excited-state engine): molecules with heavy-heavy pairs
+    for nm, meth in ([("ch2o", "AM1"), ("hcn", "PM3"), ("c2h4", "AM1")] if ctx.thorough else [[("ch2o", "AM1"), ("hcn", "PM3")][ctx.seed % 2]]):
+        cases.append({"name": nm, "method": meth, "stratum": "generic:", "seed": int(rng.integers(0, 10**6)), "excited": {"n_states": 3, "method": "cis", "tolerance": 1e-8}, "active_state": 1, "nac": True,
+                      "tol_f": 1e-5, "shift": [1.7, -2.3, 0.9]})
     # the same object moved rigidly and evaluated again (large rotations: frontier p orbitals turn by more than 45 degrees)
     for nm, meth in ([("h2o", "AM1"), ("ch2o", "PM3"), ("c2h4", "MNDO")] if ctx.thorough else [[("h2o", "AM1"), ("ch2o", "PM3")][ctx.seed % 2]]):
         cases.append({"name": nm, "method": meth, "stratum": "generic:", "seed": int(rng.integers(0, 10**6)), "same_object": True, "shift": [0.3, -1.1, 2.0]})
